@@ -45,11 +45,15 @@ def _alarm(signum, frame):
 
 
 CASE_LIMIT_S = 60
+HARD_GRACE_S = int(os.environ.get("VERIF_HARD_GRACE", "45"))
+# heartbeat read by the watchdog thread of main(): (start time, limit, stream name, case) of the case being run
+_BEAT = {"t": None, "limit": CASE_LIMIT_S, "stream": None, "case": None}
 
 
 def safe_run(stream, case, drv):
     import signal
     limit = getattr(stream, "limit", CASE_LIMIT_S)
+    _BEAT.update(t=time.time(), limit=limit, stream=stream.name, case=case)
     old = signal.signal(signal.SIGALRM, _alarm)
     signal.setitimer(signal.ITIMER_REAL, limit)
     try:
@@ -67,6 +71,7 @@ def safe_run(stream, case, drv):
     except Exception as e:  # an unexpected exception inside a stream is a harness error, not a verdict
         return core.Result("error", f"{type(e).__name__}: {e}\n{traceback.format_exc()[-1200:]}", False, {})
     finally:
+        _BEAT["t"] = None
         signal.setitimer(signal.ITIMER_REAL, 0)
         signal.signal(signal.SIGALRM, old)
 
@@ -154,6 +159,31 @@ def main():
                     out["failures"].append(f_)
         if len(out["samples"]) < 2 * len(streams) and st["cases"] <= 2:
             out["samples"].append({"stream": sname, "case": case, "status": r.status})
+
+    def watchdog():
+        # a call that blocks outside the interpreter (a dead joblib pool, a native dead-lock) is not interrupted by SIGALRM:
+        # after a grace period write what has been collected, record the case as not terminating and leave
+        while True:
+            time.sleep(5)
+            t = _BEAT["t"]
+            if t is not None and time.time() - t > _BEAT["limit"] + HARD_GRACE_S:
+                try:
+                    # not a verdict: a call blocked outside the interpreter (dead worker pool, native dead-lock) can be caused by
+                    # the machine (memory pressure, killed child process); Python-level non-termination is caught by SIGALRM above
+                    out["abandoned_at"] = {"stream": _BEAT["stream"], "case": _BEAT["case"],
+                                           "detail": f"no result within {_BEAT['limit'] + HARD_GRACE_S} s and the call could not be "
+                                                     "interrupted: the worker stopped here and reported what it had"}
+                    out["nontrivial_keys"] = sorted(keys)
+                    out["wall_s"] = round(time.time() - t0, 1)
+                    out["abandoned"] = True
+                    with open(a.out + ".tmp", "w") as f:
+                        json.dump(out, f, default=str)
+                    os.replace(a.out + ".tmp", a.out)
+                finally:
+                    os._exit(0)
+
+    import threading
+    threading.Thread(target=watchdog, daemon=True).start()
 
     # corpus first (every worker: the hash seed matters)
     cdir = os.path.join(VERIF, "corpus", a.prop)
